@@ -155,7 +155,7 @@ def check_type(chk, F, ty, thorough):
                               sp.spec_of_real(Poly.const(0 if tr == "Sum" else 1)))
             except Unsupported as ex:
                 chk.undecide("form|%s|%s|empty" % (ty, tr), "unsupported: %s" % ex, body_loc(F, body))
-        elif tr == "From":
+        elif tr == "From" and rhs_scalar:
             body = F.impl_item(imp, "from")
             chk.count("operator/conversion impls")
             sp = Spec(ty)
